@@ -7,6 +7,8 @@ type RAT[K comparable, V any] struct {
 	idx    map[K]int
 	// full tells whether every slot of the key's ring has been written.
 	full map[K]bool
+	// writes counts the writes of a key since the table was created.
+	writes map[K]int
 }
 
 func NewRAT[K comparable, V any](length int) *RAT[K, V] {
@@ -15,6 +17,7 @@ func NewRAT[K comparable, V any](length int) *RAT[K, V] {
 		values: make(map[K][]V),
 		idx:    make(map[K]int),
 		full:   make(map[K]bool),
+		writes: make(map[K]int),
 	}
 }
 
@@ -74,6 +77,13 @@ func (r *RAT[K, V]) Write(k K, value V) {
 
 	r.idx[k] = idx
 	r.values[k][idx] = value
+	r.writes[k]++
+}
+
+// Overflowed tells whether more values were written for k than the ring holds,
+// i.e. the oldest ones have been overwritten.
+func (r *RAT[K, V]) Overflowed(k K) bool {
+	return r.writes[k] > r.length
 }
 
 func (r *RAT[K, V]) Values() map[K]V {
@@ -106,4 +116,31 @@ func (r *RAT[K, V]) FindValues(predicate func(V) bool) map[K]V {
 		}
 	}
 	return m
+}
+
+// Entries returns the written entries of k, newest first.
+func (r *RAT[K, V]) Entries(k K) []V {
+	idx, exists := r.idx[k]
+	if !exists {
+		return nil
+	}
+	var out []V
+	for i := idx; i >= 0; i-- {
+		out = append(out, r.values[k][i])
+	}
+	if r.full[k] {
+		for i := r.length - 1; i > idx; i-- {
+			out = append(out, r.values[k][i])
+		}
+	}
+	return out
+}
+
+// Keys returns the keys written so far.
+func (r *RAT[K, V]) Keys() []K {
+	var out []K
+	for k := range r.idx {
+		out = append(out, k)
+	}
+	return out
 }
